@@ -86,6 +86,8 @@ RING = {
                'increase number of radical (h1) break bond(o1,h1) }',
     'r-XH-sc': 'rule xhsc{ reactant r1{ $ labeled x1 H labeled h1 single bond to x1 } increase number of radical (x1) '
                'increase number of radical (h1) break bond(x1,h1) }',
+    'r-any-up': 'rule anyup{ reactant r1{ C. labeled c1 C. labeled c2 any bond to c1 } decrease number of radical (c1) '
+                'decrease number of radical (c2) increase bond order (c1,c2) }',
     'r-C=C-dn': 'rule ccdn{ reactant r1{ C labeled c1 C labeled c2 double bond to c1 } increase number of radical (c1) '
                 'increase number of radical (c2) decrease bond order (c1,c2) }',
 }
@@ -107,6 +109,8 @@ DESIGNED = [
     (['CC', 'CC'], ['CH-sc']), (['C1CC1'], ['ring-q']),
     (['CS'], ['CS-up', 'CH-sc', 'SH-sc']), (['CSC'], ['CS-up']), (['CSC'], ['CS-up', 'CH-sc']), (['CP'], ['CP-up', 'CH-sc']),
     (['CCS'], ['CS-sc', 'SH-sc', 'CS-up']),
+    # one rule object applied to bonds of different orders (pattern bond `any`): each application raises the order it finds
+    (['CC'], ['r-CH-sc', 'r-any-up']), (['[CH2][CH2]'], ['r-any-up', 'r-CH-sc']), (['C=C'], ['r-CH-sc', 'r-any-up']),
 ]
 
 
@@ -247,7 +251,6 @@ def soft_fail(ctx, name, detail):
 
 def closure(seed_smiles, rule_texts, cap=CAP):
     """independent breadth-first closure. Returns (seed_keys, graph, mols) with graph[key][i] = product keys of rule i"""
-    rules = [build_rule(t) for t in rule_texts]
     mols = collections.OrderedDict()
     seed_keys = []
     queue = collections.deque()
@@ -263,9 +266,11 @@ def closure(seed_smiles, rule_texts, cap=CAP):
     while queue:
         k = queue.popleft()
         graph[k] = []
-        for r in rules:
+        for t in rule_texts:
             try:
-                raw = r.RunReactants((mols[k],))
+                # a FRESH rule object for every application: what a rule does to a species must not depend on what the same
+                # rule object was applied to before (state kept in rule or edit objects)
+                raw = build_rule(t).RunReactants((mols[k],))
             except Exception as e:
                 raise RuleRaises(type(e).__name__)
             prods = successors(raw, stats)
